@@ -109,7 +109,11 @@ C09Verdict(rec) ==
 \* ---- C17 ----------------------------------------------------------------
 \* rec (a group of observations of one definition): [id, obs], obs[i] = [p (payload), hash ("" = none), id, netmap]
 \* Key: the code bits of the fields the database marks as part of the primary key (positioned fields)
-KeyBits(d, p) == [k \in {j \in 1..Len(d.fields) : d.fields[j].pk /\ Positioned(d.fields[j])} |-> Code(d.fields[k], p)]
+\* (a text key - STRING_LAU at a fixed position - counts with its encoding byte and its text bytes, blanks included)
+TextKey(f) == f.kind = "strlau" /\ f.off >= 0
+KeyBits(d, p) == [k \in {j \in 1..Len(d.fields) : d.fields[j].pk /\ (Positioned(d.fields[j]) \/ TextKey(d.fields[j]))} |->
+                    IF TextKey(d.fields[k]) THEN <<ByteAtBit(p, d.fields[k].off + 8)>> \o LauBytes(p, d.fields[k].off)
+                    ELSE Code(d.fields[k], p)]
 C17Verdict(rec) ==
   LET d == DefById(rec.id)
       n == Len(rec.obs)
